@@ -43,6 +43,10 @@ def all_runs():
         runs.append({"model": model, "fw": "torch_dataset", "use_wandb": False, "save_ckpt": True, "form": "plain", "delete_chunks": True, "omit": omit})
     for model in ("centroid", "bottomup"):
         runs.append({"model": model, "fw": "torch_dataset_np_chunks", "use_wandb": True, "save_ckpt": True, "form": "plain", "delete_chunks": False, "omit": None})
+    # checkpoint-callback settings other than the default (save_top_k=1, save_last=True): [save_top_k, save_last]
+    for model, form, wb, ckpt in (("centroid", "structured", False, [0, True]), ("single_instance", "plain", True, [0, True]), ("bottomup", "plain", False, [-1, False]),
+                                  ("centered_instance", "structured", True, [-1, None]), ("centroid", "plain", False, [2, True]), ("single_instance", "structured", False, [1, False])):
+        runs.append({"model": model, "fw": "torch_dataset", "use_wandb": wb, "save_ckpt": True, "form": form, "delete_chunks": True, "omit": None, "ckpt": ckpt})
     return runs
 
 
@@ -56,7 +60,7 @@ def quick_subset():
             for r in runs:
                 need.add((factors[a], r[factors[a]], factors[b], r[factors[b]]))
     chosen = []
-    pool = [r for r in runs if r["omit"] is None and r["delete_chunks"]]
+    pool = [r for r in runs if r["omit"] is None and r["delete_chunks"] and not r.get("ckpt")]
     while need:
         best, gain = None, -1
         for r in pool:
@@ -67,7 +71,7 @@ def quick_subset():
         for a in range(len(factors)):
             for b in range(a + 1, len(factors)):
                 need.discard((factors[a], best[factors[a]], factors[b], best[factors[b]]))
-    chosen += [r for r in runs if r["omit"] is not None][:2] + [r for r in runs if not r["delete_chunks"]][:1]
+    chosen += [r for r in runs if r["omit"] is not None][:2] + [r for r in runs if not r["delete_chunks"]][:1] + [r for r in runs if r.get("ckpt")][:3]
     return chosen
 
 
@@ -77,7 +81,7 @@ def cases(ctx):
         if i % ctx.nshards == ctx.shard:
             yield dict(r, i=i, kind="run")
     if ctx.tier == "thorough":
-        kills = [r for r in all_runs() if r["form"] == "plain" and r["omit"] is None and r["delete_chunks"] and r["model"] in ("centroid", "bottomup")]
+        kills = [r for r in all_runs() if r["form"] == "plain" and r["omit"] is None and r["delete_chunks"] and not r.get("ckpt") and r["model"] in ("centroid", "bottomup")]
         for j, r in enumerate(kills):
             if j % ctx.nshards == ctx.shard:
                 yield dict(r, i=1000 + j, kind="kill")
@@ -127,7 +131,7 @@ def make_config(run, outdir):
         mc = get_model_config(backbone_config={"unet": {k: v for k, v in unet.items() if k != "output_stride"} | {"output_stride": 2}}, head_configs={model: head})
         tc = get_trainer_config(batch_size=1, num_workers=0, trainer_num_devices=1, trainer_accelerator="cpu", steps_per_epoch=1, max_epochs=1, seed=7, use_wandb=run["use_wandb"],
                                 save_ckpt=run["save_ckpt"], save_ckpt_path=outdir, wandb_project="vf", wandb_name="vf-run", wandb_api_key=KEY, wandb_mode="offline",
-                                lr_scheduler="step_lr", early_stopping=False)
+                                lr_scheduler="step_lr", early_stopping=False, **({"ckpt_save_top_k": run["ckpt"][0], "ckpt_save_last": run["ckpt"][1]} if run.get("ckpt") else {}))
         return TrainingJobConfig(dc, mc, tc).to_sleap_nn_cfg()
     cfg = {
         "data_config": {"provider": "LabelsReader", "train_labels_path": lp, "val_labels_path": lp, "test_file_path": None, "user_instances_only": True, "data_pipeline_fw": run["fw"],
@@ -137,7 +141,7 @@ def make_config(run, outdir):
         "model_config": {"init_weights": "default", "pre_trained_weights": None, "pretrained_backbone_weights": None, "pretrained_head_weights": None,
                          "backbone_config": {"unet": unet}, "head_configs": {m: (head if m == model else None) for m in MODELS}},
         "trainer_config": {"train_data_loader": {"batch_size": 1, "shuffle": True, "num_workers": 0}, "val_data_loader": {"batch_size": 1, "num_workers": 0},
-                           "model_ckpt": {"save_top_k": 1, "save_last": True}, "early_stopping": {"stop_training_on_plateau": False, "min_delta": 1e-8, "patience": 3},
+                           "model_ckpt": {"save_top_k": (run.get("ckpt") or [1, True])[0], "save_last": (run.get("ckpt") or [1, True])[1]}, "early_stopping": {"stop_training_on_plateau": False, "min_delta": 1e-8, "patience": 3},
                            "trainer_devices": 1, "trainer_accelerator": "cpu", "enable_progress_bar": False, "steps_per_epoch": 1, "max_epochs": 1, "seed": 7,
                            "use_wandb": run["use_wandb"], "save_ckpt": run["save_ckpt"], "save_ckpt_path": outdir, "resume_ckpt_path": None,
                            "wandb": {"entity": None, "project": "vf", "name": "vf-run", "wandb_mode": "offline", "api_key": KEY, "prv_runid": None, "group": None},
@@ -220,7 +224,7 @@ def check(ctx, case):
     from omegaconf import OmegaConf
     from vf import fsaudit, synth
 
-    run = {k: case[k] for k in ("model", "fw", "use_wandb", "save_ckpt", "form", "delete_chunks", "omit")}
+    run = {k: case.get(k) for k in ("model", "fw", "use_wandb", "save_ckpt", "form", "delete_chunks", "omit", "ckpt")}
     tag = "-".join(str(v) for v in run.values()).replace("_", "")
     outdir = os.path.join(synth.workdir("C19"), f"run{case['i']}_{tag}")
     shutil.rmtree(outdir, ignore_errors=True)
@@ -280,9 +284,22 @@ def check_artifacts(ctx, run, outdir, res, small, sig):
     d = diff(got_train, used)
     if d:
         ctx.violation("training-config-differs", f"run {sig}: training_config.yaml differs from the configuration actually used: {d[:3]}", small)
-    has_best = os.path.exists(os.path.join(outdir, "best.ckpt"))
-    if run["save_ckpt"] and not has_best:
-        ctx.violation("checkpoint-missing", f"run {sig}: checkpointing is on but best.ckpt does not exist", small)
+    top_k, last = run.get("ckpt") or [1, True]
+    want = ("best.ckpt" if top_k != 0 else "last.ckpt") if (top_k != 0 or last) else None  # save_top_k=0 keeps no 'best' model; save_last still writes last.ckpt
+    if run["save_ckpt"] and want and not os.path.exists(os.path.join(outdir, want)):
+        ctx.violation("checkpoint-missing", f"run {sig}: checkpointing is on (save_top_k={top_k}, save_last={last}) but {want} does not exist; checkpoints present: {sorted(f for f in os.listdir(outdir) if f.endswith('.ckpt'))}", small)
+    if run["save_ckpt"] and want:
+        import torch
+
+        try:
+            ck = torch.load(os.path.join(outdir, want), map_location="cpu", weights_only=False)
+            ctx.count("checkpoints_loaded")
+            if "state_dict" not in ck:
+                ctx.violation("checkpoint-unloadable", f"run {sig}: {want} holds no state_dict", small)
+        except FileNotFoundError:
+            pass
+        except Exception as e:
+            ctx.violation("checkpoint-unloadable", f"run {sig}: {want} cannot be loaded: {type(e).__name__}: {str(e)[:120]}", small)
     if not run["save_ckpt"] and any(f.endswith(".ckpt") for f in os.listdir(outdir)):
         ctx.violation("checkpoint-unexpected", f"run {sig}: checkpointing is off but a checkpoint was written", small)
     if run["fw"] == "torch_dataset_np_chunks" and run["delete_chunks"]:
